@@ -68,15 +68,16 @@ type c16Fault struct {
 }
 
 type c16Case struct {
-	Mode      string     `json:"mode"` // faults | kinds
-	Files     []c16File  `json:"files"`
-	Patches   []c16Patch `json:"patches"`
-	Via       string     `json:"via"`                  // "p": one -p per patch; "P": a list file
-	ListFault string     `json:"list_fault,omitempty"` // "" missing unreadable
-	Args      []string   `json:"args"`                 // relative to the case directory; the tree is tree/
-	Missing   []string   `json:"missing,omitempty"`    // members of Args that do not exist
-	Only      *c16Fault  `json:"only,omitempty"`       // mode faults: evaluate just this fault (replays)
-	Flags     []string   `json:"flags,omitempty"`      // flags of the run (e.g. --skip-import-processing)
+	Mode      string         `json:"mode"` // faults | kinds
+	Files     []c16File      `json:"files"`
+	Patches   []c16Patch     `json:"patches"`
+	Via       string         `json:"via"`                  // "p": one -p per patch; "P": a list file
+	ListFault string         `json:"list_fault,omitempty"` // "" missing unreadable
+	Args      []string       `json:"args"`                 // relative to the case directory; the tree is tree/
+	Missing   []string       `json:"missing,omitempty"`    // members of Args that do not exist
+	Only      *c16Fault      `json:"only,omitempty"`       // mode faults: evaluate just this fault (replays)
+	Flags     []string       `json:"flags,omitempty"`      // flags of the run (e.g. --skip-import-processing)
+	Signal    *c16SignalSpec `json:"signal,omitempty"`     // mode signal
 }
 
 type c16Finding struct {
@@ -1305,6 +1306,10 @@ func evalC16(cs *c16Case) (sig, msg string) {
 			}
 		}
 	}
+	if cs.Mode == "signal" {
+		sig, msg, _, _ = c16EvalSignal(cs)
+		return sig, msg
+	}
 	if cs.Mode == "faults" {
 		c16EvalFaults(cs, nil, sink)
 	} else {
@@ -1893,6 +1898,10 @@ func TestC16(t *testing.T) {
 	// Part 3: generated cases.
 	checkN(t, func(rt *rapid.T) {
 		var cs *c16Case
+		if rapid.IntRange(0, 5).Draw(rt, "signalMode") == 0 {
+			c16RunSignal(rt, c, c16GenSignal(rt))
+			return
+		}
 		if rapid.IntRange(0, 9).Draw(rt, "mode") < 6 {
 			cs = c16GenFaults(rt)
 		} else {
